@@ -28,6 +28,7 @@ def gen_c11_spec(rng: random.Random) -> Dict[str, Any]:
     nro = rng.random() < 0.5
     sends = []
     meta = {}
+    empty_id = rng.random() < 0.06
     for i in range(ntok):
         tok = f"r{i}"
         L = rng.randint(1, 7)
@@ -92,7 +93,12 @@ def gen_c11_spec(rng: random.Random) -> Dict[str, Any]:
                 s_["task"] = "t_decl"
                 if rng.random() < 0.5:
                     s_["labels"]["team"] = "billing"
-    if rng.random() < 0.2:
+    if rng.random() < 0.15:
+        # sends whose confirmation gets lost: the broker has the message, the sender is told the send failed.  Whatever
+        # the sender makes of that, the message is on its way once
+        spec["kick_lost"] = sorted(rng.sample(range(10), rng.randint(1, 3)))
+        spec["kick_lost_exc"] = rng.choice(["ConnectionError", "TimeoutError", "ConnectionResetError"])
+    if rng.random() < 0.2 and "kick_lost" not in spec:
         # the same through the bundled InMemoryBroker (kick() starts the execution itself) and its result backend;
         # nothing here takes time, so attempts cannot overtake each other
         spec["via"] = "inmemory"
@@ -105,6 +111,10 @@ def gen_c11_spec(rng: random.Random) -> Dict[str, Any]:
             for b in s_["beh"]:
                 if rng.random() < 0.7:
                     b["dur"] = []
+    elif empty_id:
+        # a task id that happens to be falsy (the caller chose it): an id like any other
+        sends[0]["tok"] = ""
+        meta[""] = meta.pop("r0")
     return spec
 
 
@@ -161,6 +171,7 @@ def oracle_c11(rr: Any, spec: Dict[str, Any]) -> "tuple[List[Violation], int]":
     kicked = defaultdict(list)
     for bm in rr.sc.kicked:
         kicked[bm.task_id].append(bm)
+    lost = {e["task_id"] for e in tr if e["k"] == "kick_lost"}
     for send in spec["client_sends"]:
         tok = send["tok"]
         want = model(spec, send)
@@ -174,6 +185,10 @@ def oracle_c11(rr: Any, spec: Dict[str, Any]) -> "tuple[List[Violation], int]":
         if len(got["kick"]) != max(n, 1):
             v.append(Violation("kick-count", f"{tok}: {len(got['kick'])} sends for {n} executions"))
         stored = ["err" if e["is_err"] else "ok" for e in got["set"]]
+        if tok in lost:
+            # a send of this message "failed" after the broker had taken it: the attempt that sent it ends there (what
+            # it stores is not modelled); the number of executions and of sends is what it is without the fault
+            continue
         inplace_known = False
         nested = bool(spec.get("inplace")) and spec.get("via") == "inmemory" and not spec["retry"]["no_result_on_retry"]
         if nested and n == want["execs"] and len(want["stored"]) > 1:
